@@ -3,8 +3,8 @@
    of the embedded corpus, how many server slots, client parallelism, and whether every server of
    the run fails to start. *)
 EXTENDS Naturals, Sequences, TLC, Json
-Configs == {"h1-connect", "h1h2c-all", "tls-mix", "tls-certs"}
-Slices  == {"basic", "basic-unary", "errors-skip-stream", "two-suites"}
+Configs == {"h1-connect", "h1h2c-all", "tls-mix", "tls-certs", "tls-one-cert-instance"}   \* (the last: exactly one instance with client certificates)
+Slices  == {"basic", "basic-unary", "errors-skip-stream", "two-suites", "client-certs"}
 \* how the server under test behaves: answers and stops at once / takes a while to end after SIGTERM /
 \* exits before answering / answers with garbage and takes a while to end
 SrvFaults == {"none:0", "none:350", "failstart:1", "garbage:350"}
